@@ -405,18 +405,9 @@ pub fn step<Q: QueueLike>(q: &mut Q, op: &Op, m: &mut Model, unordered: &mut boo
                     }
                 }
             }
-            // which payload an extend keeps for a repeated item is not specified by the
-            // properties (only that it must not depend on the hint, checked in C07): accept the
-            // stored one or any offered one, and follow the implementation.
-            for (k, v) in m.iter_mut() {
-                if let Some((i, _)) = q.q_get_b(&Key(*k)) {
-                    let legal = before.get(k).map(|x| x.0) == Some(i.payload)
-                        || seq.iter().any(|x| x.0 == *k && x.1 == i.payload);
-                    if legal {
-                        v.0 = i.payload;
-                    }
-                }
-            }
+            // like push, extend only updates the priority of an item that is already stored: the
+            // stored item value stays (C12), whichever internal strategy is chosen (C07)
+            let _ = before;
             Ok(Ret::Unit)
         }
         Op::Append(other) => {
